@@ -15,15 +15,28 @@
 (* Known deviation of the code (known_findings/C15.json), admitted only when  *)
 (* AllowKnown: D5 = Unregister of a processor that is not in the list removes *)
 (* the first processor without shutting it down (idx stays 0).                *)
+(* RE-ENTRANT processors (Reent): a processor whose Shutdown callback calls    *)
+(* back into the provider (Tracer / Register / Unregister / Shutdown) on the   *)
+(* caller's goroutine, i.e. while that caller holds p.mu (sync.Mutex is not    *)
+(* re-entrant).  The inner call starts with the lock-free isShutdown pre-check *)
+(* (PreCheck; FALSE = the shape of the seeded change that removed it from      *)
+(* Register / Unregister) and otherwise needs the mutex its own caller holds:  *)
+(* it never gets it -- `Stuck`.  Under Shutdown the flag is already set, so    *)
+(* the pre-check answers; under Unregister it is not (known finding            *)
+(* C15-unregister-runs-processor-shutdown-under-provider-lock = C10-D4).       *)
+(* The inner call's own effect on the list is not modelled (deadlock only).    *)
 EXTENDS Naturals, Sequences, FiniteSets, TLC
 
 CONSTANTS Callers,     \* caller id -> [op |-> "Shutdown"] | [op |-> "Unregister", p |-> ..] | [op |-> "Register", p |-> ..] | [op |-> "End"]
           InitProcs,   \* sequence of processors registered at construction
           CodeShape,   \* TRUE: Unregister behaves like the code (D5); FALSE: like the statement
-          AllowKnown
+          AllowKnown,
+          Reent,       \* processor -> "none" | "Tracer" | "Register" | "Unregister" | "Shutdown": call made from its Shutdown
+          PreCheck     \* TRUE: Register / Unregister begin with the lock-free isShutdown pre-check (the code)
 
-VARIABLES list, isShutdown, mu, once, sd, pc, idx, snap, mon
-vars == <<list, isShutdown, mu, once, sd, pc, idx, snap, mon>>
+VARIABLES list, isShutdown, mu, once, sd, pc, idx, snap, mon,
+          back         \* caller -> <<re-entrant call of the processor it is shutting down, where it continues afterwards>>
+vars == <<list, isShutdown, mu, once, sd, pc, idx, snap, mon, back>>
 
 C == DOMAIN Callers
 AllP == {InitProcs[i] : i \in 1..Len(InitProcs)} \cup {Callers[c].p : c \in {c \in C : Callers[c].op \in {"Register", "Unregister"}}}
@@ -33,7 +46,7 @@ LastIndex(s, p) == IF \E i \in 1..Len(s) : s[i] = p THEN CHOOSE i \in 1..Len(s) 
 
 Init == /\ list = InitProcs /\ isShutdown = FALSE /\ mu = "none" /\ once = {}
         /\ sd = [p \in AllP |-> 0] /\ pc = [c \in C |-> "start"] /\ idx = [c \in C |-> 1]
-        /\ snap = [c \in C |-> <<>>]
+        /\ snap = [c \in C |-> <<>>] /\ back = [c \in C |-> <<"none", "none">>]
         /\ mon = [everIn |-> SeqToSet(InitProcs), sdReturned |-> FALSE, delivered |-> [c \in C |-> {}], bad |-> {}]
 
 Go(c, l) == pc' = [pc EXCEPT ![c] = l]
@@ -41,24 +54,41 @@ Locked(c) == Callers[c].op \in {"Shutdown", "Unregister", "Register"}
 
 Pre(c) == /\ pc[c] = "start" /\ Locked(c)
           /\ Go(c, IF isShutdown THEN "ret" ELSE "lock")
-          /\ UNCHANGED <<list, isShutdown, mu, once, sd, idx, snap, mon>>
+          /\ UNCHANGED <<list, isShutdown, mu, once, sd, idx, snap, mon, back>>
 Lock(c) == /\ pc[c] = "lock" /\ mu = "none" /\ mu' = c /\ Go(c, "body")
-           /\ UNCHANGED <<list, isShutdown, once, sd, idx, snap, mon>>
+           /\ UNCHANGED <<list, isShutdown, once, sd, idx, snap, mon, back>>
+
+(* ---- re-entrant call made by processor p's Shutdown on caller c's goroutine *)
+RE(p) == IF p \in DOMAIN Reent THEN Reent[p] ELSE "none"
+HasPre(call) == call \in {"Shutdown", "Tracer"} \/ (call \in {"Register", "Unregister"} /\ PreCheck)
+Inner(c) == /\ pc[c] = "inner"
+            /\ IF HasPre(back[c][1]) /\ isShutdown
+                 THEN Go(c, back[c][2])                  \* the pre-check answers without the mutex
+                 ELSE Go(c, "innerlock")
+            /\ UNCHANGED <<list, isShutdown, mu, once, sd, idx, snap, mon, back>>
+InnerLock(c) == /\ pc[c] = "innerlock" /\ mu = "none"   \* never while c itself holds the mutex
+                /\ Go(c, back[c][2])                     \* (lock, re-check, unlock: no effect modelled)
+                /\ UNCHANGED <<list, isShutdown, mu, once, sd, idx, snap, mon, back>>
+URel(c) == /\ pc[c] = "urel" /\ mu' = "none" /\ Go(c, "ret")
+           /\ UNCHANGED <<list, isShutdown, once, sd, idx, snap, mon, back>>
 
 (* ---- Shutdown *)
 SCas(c) == /\ pc[c] = "body" /\ Callers[c].op = "Shutdown"
            /\ IF isShutdown THEN (mu' = "none" /\ Go(c, "ret") /\ UNCHANGED isShutdown)
                             ELSE (isShutdown' = TRUE /\ Go(c, "loop") /\ UNCHANGED mu)
-           /\ UNCHANGED <<list, once, sd, idx, snap, mon>>
+           /\ UNCHANGED <<list, once, sd, idx, snap, mon, back>>
 SLoop(c) == /\ pc[c] = "loop"
             /\ IF idx[c] <= Len(list)
                  THEN LET p == list[idx[c]] IN
                       /\ once' = once \cup {p}
                       /\ sd' = IF p \in once THEN sd ELSE [sd EXCEPT ![p] = @ + 1]
                       /\ idx' = [idx EXCEPT ![c] = @ + 1]
-                      /\ UNCHANGED <<list, mu, pc>>
+                      /\ IF p \notin once /\ RE(p) # "none"
+                           THEN (Go(c, "inner") /\ back' = [back EXCEPT ![c] = <<RE(p), "loop">>])
+                           ELSE UNCHANGED <<pc, back>>
+                      /\ UNCHANGED <<list, mu>>
                  ELSE /\ list' = <<>> /\ mu' = "none" /\ Go(c, "ret")
-                      /\ UNCHANGED <<once, sd, idx>>
+                      /\ UNCHANGED <<once, sd, idx, back>>
             /\ UNCHANGED <<isShutdown, snap, mon>>
 
 (* ---- Unregister *)
@@ -75,7 +105,10 @@ UBody(c) == /\ pc[c] = "body" /\ Callers[c].op = "Unregister"
                       /\ mon' = [mon EXCEPT !.bad = @ \cup {"D5-unknown-unregister-removes-first"}]
                       /\ UNCHANGED <<once, sd>>
                ELSE UNCHANGED <<list, once, sd, mon>>
-            /\ mu' = "none" /\ Go(c, "ret")
+            /\ LET p == Callers[c].p IN
+               IF ~isShutdown /\ LastIndex(list, p) # 0 /\ p \notin once /\ RE(p) # "none"
+                 THEN (Go(c, "inner") /\ back' = [back EXCEPT ![c] = <<RE(p), "urel">>] /\ UNCHANGED mu)   \* sp.Shutdown under p.mu
+                 ELSE (mu' = "none" /\ Go(c, "ret") /\ UNCHANGED back)
             /\ UNCHANGED <<isShutdown, idx, snap>>
 
 (* ---- Register *)
@@ -84,20 +117,20 @@ RBody(c) == /\ pc[c] = "body" /\ Callers[c].op = "Register"
                ELSE /\ list' = Append(list, Callers[c].p)
                     /\ mon' = [mon EXCEPT !.everIn = @ \cup {Callers[c].p}]
             /\ mu' = "none" /\ Go(c, "ret")
-            /\ UNCHANGED <<isShutdown, once, sd, idx, snap>>
+            /\ UNCHANGED <<isShutdown, once, sd, idx, snap, back>>
 
 (* ---- End (lock free) *)
 ELoad(c) == /\ pc[c] = "start" /\ Callers[c].op = "End"
             /\ snap' = [snap EXCEPT ![c] = list] /\ Go(c, "deliver")
-            /\ UNCHANGED <<list, isShutdown, mu, once, sd, idx, mon>>
+            /\ UNCHANGED <<list, isShutdown, mu, once, sd, idx, mon, back>>
 EDeliver(c) == /\ pc[c] = "deliver"
                /\ mon' = [mon EXCEPT !.delivered[c] = SeqToSet(snap[c])] /\ Go(c, "ret")
-               /\ UNCHANGED <<list, isShutdown, mu, once, sd, idx, snap>>
+               /\ UNCHANGED <<list, isShutdown, mu, once, sd, idx, snap, back>>
 
 Ret(c) == /\ pc[c] = "ret" /\ Go(c, "done")
           /\ mon' = [mon EXCEPT !.sdReturned = (@ \/ (Callers[c].op = "Shutdown" /\ \A o \in C \ {c} :
                                                         Callers[o].op = "Shutdown" => pc[o] \in {"start", "done"}))]
-          /\ UNCHANGED <<list, isShutdown, mu, once, sd, idx, snap>>
+          /\ UNCHANGED <<list, isShutdown, mu, once, sd, idx, snap, back>>
 
 APre == \E c \in C : Pre(c)
 ALock == \E c \in C : Lock(c)
@@ -108,9 +141,10 @@ ARBody == \E c \in C : RBody(c)
 AELoad == \E c \in C : ELoad(c)
 AEDeliver == \E c \in C : EDeliver(c)
 ARet == \E c \in C : Ret(c)
-Next == APre \/ ALock \/ ASCas \/ ASLoop \/ AUBody \/ ARBody \/ AELoad \/ AEDeliver \/ ARet
+AInner == \E c \in C : Inner(c) \/ InnerLock(c) \/ URel(c)
+Next == AInner \/ APre \/ ALock \/ ASCas \/ ASLoop \/ AUBody \/ ARBody \/ AELoad \/ AEDeliver \/ ARet
 Spec == Init /\ [][Next]_vars
-FairSpec == Spec /\ \A c \in C : WF_vars(Pre(c) \/ Lock(c) \/ SCas(c) \/ SLoop(c) \/ UBody(c) \/ RBody(c) \/ ELoad(c) \/ EDeliver(c) \/ Ret(c))
+FairSpec == Spec /\ \A c \in C : WF_vars(Inner(c) \/ InnerLock(c) \/ URel(c) \/ Pre(c) \/ Lock(c) \/ SCas(c) \/ SLoop(c) \/ UBody(c) \/ RBody(c) \/ ELoad(c) \/ EDeliver(c) \/ Ret(c))
 
 (* ---- the statement *)
 AtMostOnce == \A p \in AllP : sd[p] <= 1
